@@ -356,6 +356,29 @@ func preludeD(w *lineWriter, m Mix) {
 	w.add("\tU2 struct{ F int }") // no doc comment of its own: must not inherit the previous spec's
 	w.add(")")
 	w.add("")
+	w.add("// GT is a generic annotated type (same marking as T: M is the @mutable field); its constructor is generic too.")
+	if m.Imm {
+		w.add("// @immutable")
+	}
+	if m.Ctor > 0 {
+		w.add("// @constructor NewGT")
+	}
+	w.add("type GT[V any] struct {")
+	w.add("\tF V")
+	if m.Mut {
+		w.add("\t// @mutable")
+	}
+	w.add("\tM int")
+	w.add("}")
+	w.add("")
+	w.add("func NewGT[V any](v V) *GT[V] {")
+	w.add("\tg := &GT[V]{}")
+	if m.Ctor > 0 {
+		w.add("\tg.F = v") // a write inside the (generic) constructor: exempt only because NewGT is listed
+	}
+	w.add("\treturn g")
+	w.add("}")
+	w.add("")
 	w.add("// O is a plain struct holding T.")
 	w.add("type O struct {")
 	w.add("\tIn T")
@@ -364,7 +387,7 @@ func preludeD(w *lineWriter, m Mix) {
 	w.add("")
 	w.add("func GetP() *T { return nil }")
 	w.add("")
-	w.add("func Env() (x T, p *T, r *T, o O, op *O, arr []T, tw P, tp *P, y int, rn *N, x2 T2, u2 U2) { return }")
+	w.add("func Env() (x T, p *T, r *T, o O, op *O, arr []T, tw P, tp *P, y int, rn *N, x2 T2, u2 U2, gx GT[int], gp *GT[int]) { return }")
 	w.add("")
 }
 
@@ -528,14 +551,14 @@ func NewT() *P { return &P{} }
 func (r *renderer) subst(stmt string) string {
 	r.ctr++
 	rep := strings.NewReplacer("{TL}", r.tLit, "{T}", r.tName, "{PT}", r.ptName, "{P}", r.pName, "{O}", r.oName, "{N}", r.nName,
-		"{GetP}", r.q+"GetP", "{Env}", r.q+"Env", "{T2}", r.q+"T2", "{U2}", r.q+"U2", "$v", fmt.Sprintf("v%d", r.ctr))
+		"{GetP}", r.q+"GetP", "{Env}", r.q+"Env", "{T2}", r.q+"T2", "{U2}", r.q+"U2", "{GT}", r.q+"GT", "{NewGT}", r.q+"NewGT", "$v", fmt.Sprintf("v%d", r.ctr))
 	return rep.Replace(stmt)
 }
 
 func (r *renderer) params(skip string) string {
 	all := []struct{ n, t string }{
 		{"x", r.tName}, {"p", r.ptName}, {"r", r.ptName}, {"o", r.oName}, {"op", "*" + r.oName},
-		{"arr", "[]" + r.tName}, {"tw", r.pName}, {"tp", "*" + r.pName}, {"y", "int"}, {"rn", "*" + r.nName}, {"x2", r.q + "T2"}, {"u2", r.q + "U2"},
+		{"arr", "[]" + r.tName}, {"tw", r.pName}, {"tp", "*" + r.pName}, {"y", "int"}, {"rn", "*" + r.nName}, {"x2", r.q + "T2"}, {"u2", r.q + "U2"}, {"gx", r.q + "GT[int]"}, {"gp", "*" + r.q + "GT[int]"},
 	}
 	var parts []string
 	for _, a := range all {
@@ -585,8 +608,8 @@ func (r *renderer) block(w *lineWriter, pkgPath string, bi int, b Block) {
 		w.addf("func %s(%s) {", b.Encl.fixedName(), r.params(""))
 	case EInit:
 		w.add("func init() {")
-		w.add("\tx, p, r, o, op, arr, tw, tp, y, rn, x2, u2 := " + r.subst("{Env}") + "()")
-		w.add("\tuse(x, p, r, o, op, arr, tw, tp, y, rn, x2, u2)")
+		w.add("\tx, p, r, o, op, arr, tw, tp, y, rn, x2, u2, gx, gp := " + r.subst("{Env}") + "()")
+		w.add("\tuse(x, p, r, o, op, arr, tw, tp, y, rn, x2, u2, gx, gp)")
 	case EMethTPtr:
 		w.addf("func (r *T) m%d(%s) {", bi, r.params("r"))
 	case EMethTVal:
